@@ -112,7 +112,7 @@ int kalign_read_input(char* infile, struct msa** msa, int quiet)
         if(j == 0){
                 DESTROY_TIMER(timer);
                 free_in_buffer(b);
-                *msa = NULL;
+                /* nothing to add: sequences read from earlier inputs stay in *msa */
                 return OK;
         }
 
@@ -137,7 +137,6 @@ int kalign_read_input(char* infile, struct msa** msa, int quiet)
                 /* clean up allocated structures */
                 free_in_buffer(b);
                 DESTROY_TIMER(timer);
-                *msa = NULL;
                 return OK;
         }
         if(m->numseq == 0){
